@@ -225,6 +225,8 @@ class Evaluator:
                     "str": "str", "int": "int", "bool": "bool", "len": "int"}[t[1]]
         if h == "len":
             return "int"
+        if h == "fstr":
+            return "str"
         if h == "mut":
             return self.typeof(t[1])
         if h == "meth" and t[2] in ("pop",) and not t[3]:
@@ -525,7 +527,95 @@ class Evaluator:
                     else:
                         outs.append((s, "fall", None, line))
                 continue
+            fused = self._fuse_generator(it)
+            if fused is not None:
+                outs.extend(self._exec_for_fused(st, s0, fused, func))
+                continue
             outs.extend(self._exec_for_generic(st, s0, it, func))
+        return outs
+
+    def _fuse_generator(self, it: Term):
+        """iter([elem for pat in src if conds])  (a single-yield generator)  ->  (elem, gens)"""
+        t = it
+        while t[0] == "call" and t[1] in ("iter", "list", "tuple") and len(t[2]) == 1:
+            t = t[2][0]
+        if t[0] == "accum" and t[1] == "concat" and t[2] == ("listlit", ()) and t[3][0] == "listlit" and len(t[3][1]) == 1 and t[5] == ("const", False):
+            return t[3][1][0], t[4]
+        return None
+
+    def _exec_for_fused(self, st: ast.For, s0: State, fused, func: Func):
+        """Loop over a single-yield generator: iterate the generator's own source, binding the target to the yielded element."""
+        elem, gens = fused
+        line = st.lineno
+        # rename the generator's bound variables apart
+        mapping = {}
+        for pat, _, _ in gens:
+            for v in ([pat] if pat[0] == "var" else [x for x in pat[1] if x[0] == "var"]):
+                mapping[v] = self.fresh(v[1].strip("%").rstrip("0123456789_") + "_")
+                if v in self.types:
+                    self.set_type(mapping[v], self.types[v])
+        elem = subst(elem, mapping)
+        gens = subst(gens, mapping)
+        body_state = s0.fork()
+        base_conds = body_state.conds
+        self.assign(st.target, elem, body_state, func)
+        extra_conds = []
+        for pat, src, conds in gens:
+            extra_conds.append(("iter-elem", pat, src))
+            extra_conds.extend(conds)
+        before = dict(body_state.env)
+        body_outs = self.exec_block(st.body, body_state, func)
+        exits = [o for o in body_outs if o[1] in ("return", "raise")]
+        breaks = [o for o in body_outs if o[1] == "break"]
+        normals = [o for o in body_outs if o[1] in ("fall", "continue")]
+        outs = []
+        for stt, status, val, ln in exits:
+            extra = stt.conds[len(base_conds):]
+            s = State(dict(s0.env), add_conds(s0.conds, tuple(extra_conds) + tuple(extra)), stt.notes)
+            outs.append((s, status, val, ln))
+        after = s0.fork()
+        changed: dict[str, list] = {}
+        for stt, status, val, ln in normals + breaks:
+            extra = stt.conds[len(base_conds):]
+            for name, newv in stt.env.items():
+                if name.startswith("%") and name != "%yield":
+                    continue
+                oldv = before.get(name)
+                if newv is oldv or newv == oldv or name in _target_names(st.target):
+                    continue
+                changed.setdefault(name, []).append((extra, newv))
+            after.notes = after.notes + tuple(("in-loop", n, tuple(gens), tuple(extra)) for n in stt.notes[len(s0.notes):])
+        for name, alts in changed.items():
+            oldv = before.get(name)
+            res = oldv
+            ok = oldv is not None
+            if ok:
+                for extra, newv in alts:
+                    dec = self._decompose(oldv, newv)
+                    if dec is None:
+                        ok = False
+                        break
+                    for kind, payload, inner in dec:
+                        g = list(gens)
+                        # attach the body's own conditions to the innermost generator
+                        lp, lsrc, lconds = g[-1]
+                        g[-1] = (lp, lsrc, tuple(lconds) + tuple(extra))
+                        res = ("accum", kind, res, payload, tuple(g) + tuple(inner), const(bool(breaks)))
+            if not ok:
+                after.env[name] = unknown(f"loop-carried:{name}", line)
+                self.unknowns.append((func.qname, line, f"loop-carried:{name}"))
+            else:
+                after.env[name] = res
+        for nm in _target_names(st.target):
+            after.env[nm] = unknown(f"loop-var-after:{nm}", line)
+        if exits:
+            for stt, status, val, ln in exits:
+                extra = stt.conds[len(base_conds):]
+                after.conds = after.conds + (("forall-not", ("tuplelit", tuple(p for p, _, _ in gens)), gens[0][1], tuple(extra_conds[1:]) + tuple(extra)),)
+        if st.orelse:
+            outs.extend(self.exec_block(st.orelse, after, func))
+        else:
+            outs.append((after, "fall", None, line))
         return outs
 
     def _bind_target(self, tgt: ast.expr, state: State) -> Term:
@@ -602,6 +692,9 @@ class Evaluator:
                 after.conds = after.conds + (("forall-not", pat, it, extra),)
         if breaks and not exits:
             after.notes = after.notes + (("loop-with-break", line),)
+        for stt, status, val, ln in normals + breaks:
+            extra = stt.conds[len(base_conds):]
+            after.notes = after.notes + tuple(("in-loop", n, ((pat, it, ()),), tuple(extra)) for n in stt.notes[len(s0.notes):])
         if st.orelse:
             outs.extend(self.exec_block(st.orelse, after, func))
         else:
@@ -618,20 +711,47 @@ class Evaluator:
             return unknown(f"loop-temp-escapes:{name}", line)
         pieces = []
         for extra, newv in alts:
-            delta = self._delta(oldv, newv)
-            if delta is None:
+            dec = self._decompose(oldv, newv)
+            if dec is None:
                 return None
-            kind, payloads = delta
-            for payload in payloads:
-                if _mentions(payload, oldv) and oldv[0] not in ("const", "empty", "listlit", "setlit", "dictlit") :
-                    # body reads the accumulator it writes (other than through the update itself)
-                    pass
-                pieces.append((kind, payload, extra))
-        # the accumulator must not be read in the guards
+            for kind, payload, inner in dec:
+                pieces.append((kind, payload, extra, inner))
         res = oldv
-        for kind, payload, extra in pieces:
-            res = ("accum", kind, res, payload, ((pat, it, tuple(extra)),), const(bool(has_break)))
+        for kind, payload, extra, inner in pieces:
+            res = ("accum", kind, res, payload, ((pat, it, tuple(extra)),) + tuple(inner), const(bool(has_break)))
         return res
+
+    def _decompose(self, oldv: Term, newv: Term, depth: int = 0):
+        """newv as oldv plus a list of (kind, payload, inner_gens) updates; None if not of that shape."""
+        if newv == oldv:
+            return []
+        if depth > 40:
+            return None
+        d0 = self._delta(oldv, newv)
+        if d0 is not None:
+            return [(d0[0], p, ()) for p in d0[1]]
+        if newv[0] == "accum" and newv[5] == ("const", True):
+            return None  # an inner loop with break: its order matters, keep it opaque
+        if newv[0] == "accum":
+            rest = self._decompose(oldv, newv[2], depth + 1)
+            if rest is not None:
+                return rest + [(newv[1], newv[3], tuple(newv[4]))]
+        if newv[0] == "mut":
+            rest = self._decompose(oldv, newv[1], depth + 1)
+            if rest is not None:
+                return rest + [("effect", e, ()) for e in newv[2]]
+            if oldv[0] == "mut" and oldv[1] == newv[1] and newv[2][: len(oldv[2])] == oldv[2]:
+                return [("effect", e, ()) for e in newv[2][len(oldv[2]):]]
+        d = self._delta(oldv, newv)
+        if d is None:
+            # one level of set/list update on top of a decomposable value
+            if newv[0] in ("union", "concat") and len(newv) >= 3:
+                rest = self._decompose(oldv, newv[1], depth + 1)
+                if rest is not None:
+                    return rest + [(newv[0], x, ()) for x in newv[2:]]
+            return None
+        kind, payloads = d
+        return [(kind, p, ()) for p in payloads]
 
     def _delta(self, oldv: Term, newv: Term):
         """newv as oldv + list of effects; returns (kind, [payloads]) or None."""
